@@ -13,7 +13,7 @@ import (
 // cause: 0 read error / peer close frame, 1 write error at the k-th write, 2 local close without reason,
 // 3 local close with reason; concurrent traffic: up to `frames` incoming frames and `writes` outgoing messages.
 func c13(frames, writes int) {
-	e := newWsEnv(true)
+	e := newWsEnv(zzvrt.Bool("processor.closes"))
 	w := e.w
 	cause := zzvrt.Choice("cause", 4)
 	if cause == 1 {
